@@ -24,6 +24,14 @@ def rescale_to_boundary(rng, J, ne):
     s = A.sigma_max(J)
     if s == 0:
         return J
+    import math
+    if rng.random() < 0.35:
+        # EVERY ENTRY below norm_eps while sigma_max (up to sqrt(m n) times the largest entry) is above it: the
+        # branch is decided by sigma_max, not by the size of the entries
+        mx = float(A.maxabs(J))
+        e = math.floor(math.log2(float(ne) * 0.99 / mx))
+        if float(s) * 2.0 ** e >= 1.05 * float(ne):
+            return [[x * F(2) ** e for x in r] for r in J]
     above = rng.random() < 0.7
     target = float(ne) * (rng.uniform(1.5, 60) if above else 1 / rng.uniform(1.5, 60))
     import math
